@@ -1209,3 +1209,9 @@ mod test {
         );
     }
 }
+
+#[cfg(kani)]
+mod verif_kani {
+    use super::*;
+    include!(concat!(env!("LIBTW2_VERIF_HARNESS"), "/serverbrowse_protocol.rs"));
+}
